@@ -74,14 +74,17 @@ def _mask_first(c):
 def _ds_with_lacking(c):
     """dataset-wide along-axis operations (axis by default, by position, by name) on a dataset one of whose variables lacks the
     axis and is as long as the new label list"""
-    lack = c.arg(c.da.DimArray(np.array([1.5, 2.5]), axes=[c.da.Axis(np.array(["u", "v"], dtype=object), "zzlack")]))
+    lack = c.da.DimArray(np.array([1.5, 2.5]), axes=[c.da.Axis(np.array(["u", "v"], dtype=object), "zzlack")])
+    lack.attrs.update({"units": "l", "lst": [1]})
+    lack = c.arg(lack)
     ds = c.da.Dataset()
     ds["a"] = c.a
     ds["lack"] = lack
     c.arg(ds)
     new = [c.lab(0), c.a.labels[0].max() + 50]
     return (ds.reindex_axis(new), ds.reindex_axis(list(new), axis=0), ds.reindex_axis(list(new), axis=c.first), ds.take_axis([0, 0], axis=0, indexing="position"),
-            ds.sort_axis(0), ds.interp_axis([float(c.a.labels[0].min()), float(c.a.labels[0].max()) + 1.0], axis=0), ds.mean(axis=0))
+            ds.sort_axis(0), ds.interp_axis([float(c.a.labels[0].min()), float(c.a.labels[0].max()) + 1.0], axis=0), ds.mean(axis=0),
+            ds.reduce_axis(np.mean, axis=c.first), ds.reduce_axis(np.max, axis=0, keepattrs=True))
 
 
 CATALOGUE = [
@@ -246,6 +249,9 @@ CATALOGUE = [
     ("DimArray(a, key=value)", None, None, lambda c: c.da.DimArray(c.a, extra_key="K", units="other")),
     ("array(a, key=value)", None, None, lambda c: c.da.array(c.a, extra_key2=1)),
     ("DimArray(a, copy=True)", None, None, lambda c: c.da.DimArray(c.a, copy=True)),
+    ("DimArray({k: a, ...}, dims=)", None, None, lambda c: c.da.DimArray({"k1": c.a, "k2": c.a}, dims=["knew"] + ["r%d" % i for i in range(c.a.ndim)])),
+    ("DimArray([a, a])", None, None, lambda c: c.da.DimArray([c.a, c.a])),
+    ("from_nested", None, None, lambda c: c.da.DimArray.from_nested({"k1": c.a, "k2": c.b}, dims=["knew"])),
     ("to_dataset", None, None, lambda c: c.a.to_dataset(axis=0)),
     ("to_MaskedArray", None, None, lambda c: c.a.to_MaskedArray()),
     ("np.asarray", None, None, lambda c: np.asarray(c.a)),
